@@ -45,7 +45,7 @@ class OptionWarning
 {
 public:
    OptionWarning(const GenericOption *o) { m_o = (GenericOption *)o; }
-   void operator()(const char *fmt, long a, const char *b, long c) { c_warn(m_o); }
+   void operator()(const char *fmt, long a, const char *b, long c) { c_warn(m_o); }     // the two range diagnostics of validate(): (fmt, value, name, bound)
    GenericOption *m_o;
 };
 //@slice src/option.h fn validate nth=0 key=validate_base_signed
@@ -67,8 +67,9 @@ bool w_bool_read(Option_bool *o, const char *in) { return(o->read(in)); }
 extern "C" {
 extern const unsigned OT_BOOL_V = (unsigned)option_type_e::BOOL, OT_NUM_V = (unsigned)option_type_e::NUM, OT_UNUM_V = (unsigned)option_type_e::UNUM;
 extern size_t g_warn_n; extern bool g_is_ref;
-void h_validate_signed() { Option_signed *o; bool r = w_validate_signed(o, nondet_int()); if (r) { CANARY("validate accepts"); } else { CANARY("validate rejects"); } }
-void h_validate_unsigned() { Option_unsigned *o; bool r = w_validate_unsigned(o, nondet_int()); if (r) { CANARY("validate accepts"); } else { CANARY("validate rejects"); } }
+long nondet_long();
+void h_validate_signed() { Option_signed *o; bool r = w_validate_signed(o, nondet_long()); if (r) { CANARY("validate accepts"); } else { CANARY("validate rejects"); } }
+void h_validate_unsigned() { Option_unsigned *o; bool r = w_validate_unsigned(o, nondet_long()); if (r) { CANARY("validate accepts"); } else { CANARY("validate rejects"); } }
 void h_read_number_signed() { const char *in; Option_signed *o; bool r = read_number_signed(in, *o); if (r && !g_is_ref) { CANARY("read_number: numeral accepted"); } if (r && g_is_ref) { CANARY("read_number: reference accepted"); } if (!r) { CANARY("read_number: rejected"); } }
 void h_read_number_unsigned() { const char *in; Option_unsigned *o; bool r = read_number_unsigned(in, *o); if (r && !g_is_ref) { CANARY("read_number: numeral accepted"); } if (r && g_is_ref) { CANARY("read_number: reference accepted"); } if (!r) { CANARY("read_number: rejected"); } }
 void h_bool_read() { const char *in; Option_bool *o; bool r = w_bool_read(o, in); if (r) { CANARY("bool read accepted"); } else { CANARY("bool read rejected"); } }
